@@ -43,5 +43,13 @@ func init() {
 			Old: "\t\tif amount < headersPerPeer {\n\t\t\trequestSize = amount", New: "\t\tif headersPerPeer > amount {\n\t\t\trequestSize = amount"},
 		Variant{Prop: "C18", Name: "benign-loop-guard", File: se,
 			Old: "\tfor amount > uint64(0) {", New: "\tfor amount != 0 {"},
+			// the read side of the stream bounded by the request context (fourth seeding round)
+		Variant{Prop: "C18", Name: "seed-only-the-write-deadline-set", File: "p2p/helpers.go", Expect: "C18.e",
+			Old: "\t\tif err = stream.SetDeadline(dl); err != nil {", New: "\t\tif err = stream.SetWriteDeadline(dl); err != nil {"},
+		Variant{Prop: "C18", Name: "stream-deadline-after-the-reads", File: "p2p/helpers.go", Expect: "C18.e",
+			Old: "\tif dl, ok := ctx.Deadline(); ok {\n\t\tif err = stream.SetDeadline(dl); err != nil {\n\t\t\tlog.Debugf(\"error setting deadline: %s\", err)\n\t\t}\n\t}\n", New: "",
+			More: []Edit{{File: "p2p/helpers.go", Old: "\tif errors.Is(err, io.EOF) {\n\t\terr = nil\n\t}\n", New: "\tif errors.Is(err, io.EOF) {\n\t\terr = nil\n\t}\n\tif dl, ok := ctx.Deadline(); ok {\n\t\tif derr := stream.SetDeadline(dl); derr != nil {\n\t\t\tlog.Debugf(\"error setting deadline: %s\", derr)\n\t\t}\n\t}\n"}}},
+		Variant{Prop: "C18", Name: "benign-read-and-write-deadline-set-separately", File: "p2p/helpers.go",
+			Old: "\t\tif err = stream.SetDeadline(dl); err != nil {\n\t\t\tlog.Debugf(\"error setting deadline: %s\", err)\n\t\t}\n", New: "\t\tif err = stream.SetWriteDeadline(dl); err != nil {\n\t\t\tlog.Debugf(\"error setting deadline: %s\", err)\n\t\t}\n\t\tif err = stream.SetReadDeadline(dl); err != nil {\n\t\t\tlog.Debugf(\"error setting deadline: %s\", err)\n\t\t}\n"},
 	)
 }
